@@ -241,7 +241,7 @@ def eval_polygon(ctx, case):
     # exact spec on the generating coordinates (ties generator, python oracle and Lean spec together)
     if "p2" in case:
         q = ctx.driver.Q("spec.c15.simple", L([np.asarray(r, dtype=float) for r in case["p2"]]))
-        want = (expect == "accept") if why in ("simple", "crossing") else None
+        want = (expect == "accept") if why in ("simple", "crossing", "straight-first-corner") else None
         if want is not None and q[0] != want:
             ctx.fail("Spec.simple:oracle-mismatch", "Lean spec (exact Q) disagrees with the integer oracle", case, q)
     # ------------- B: model decision
@@ -315,6 +315,20 @@ def polygon_cases(ctx, n_simple, n_cross, n_other):
         ctx.count("polygon:simple:" + info["kind"])
         ctx.count("orientation:" + ("cw" if info["clockwise"] else "ccw"))
         ctx.count("embed:" + case["embed"]["mode"])
+        yield case
+    for _ in range(max(3, n_simple // 12)):
+        # simple polygon whose first three vertices are exactly collinear (a straight angle at vertex 1)
+        p2, info = gen.c15_straight_first_corner(rng)
+        mode = ["n2", "xy", "xyz0"][int(rng.integers(3))]
+        case = {"kind": "polygon", "expect": "accept", "why": "straight-first-corner", "p2": p2.tolist(), "info": info}
+        if mode == "n2":
+            case["vertices"] = p2.tolist()
+            case["embed"] = {"mode": "n2"}
+        else:
+            v, e = gen.c15_embed(rng, p2, mode)
+            case["vertices"] = v.tolist()
+            case["embed"] = e
+        ctx.count("polygon:simple:straight-first-corner")
         yield case
     for _ in range(n_cross):
         q2, info = gen.c15_crossing_polygon(rng)
